@@ -478,9 +478,10 @@ def rule_value_metric(ctx, f, rid):
     ctx.ob(rid, "Value::metric|no-direct-access", not direct, "Value::metric must not touch the cell except through Value::get")
     if len(gets) == 1:
         g = gets[0].result_term()
-        sv = b.calls_to(["Counter::set_value", "Gauge::set_value"])
-        for c in sv:
+        from pvrules.rules import field_sets
+        sv = [(c_, "Counter") for c_ in field_sets(b, "Counter", "value", ["Counter::set_value"])] + [(c_, "Gauge") for c_ in field_sets(b, "Gauge", "value", ["Gauge::set_value"])]
+        for c, kind_ in sv:
             v = peel(c.args[1], transparent=["Number::into_f64"], refs=False)
-            ctx.ob(rid, "Value::metric|%s" % strip_generics(c.callee).split("::")[-2], v == g,
+            ctx.ob(rid, "Value::metric|%s" % kind_, v == g,
                    "the reported sample value must be into_f64(the value read) (found %s)" % show(c.args[1]), site=c.span)
         ctx.floor(rid, "set_value sites in Value::metric", len(sv), 2)
